@@ -179,7 +179,7 @@ PIECES = {
         "pcflag": [["--print_config=bogus"]],
         "help": [["--help"], ["-h"]],
         "clshelp": [["--cls.help=Sub2"], ["--cls.help", "Sub1"]],
-        "shtab": [["--print_shtab=bash"], ["--print_shtab", "zsh"]],
+        "shtab": [["--print_shtab=bash"], ["--print_shtab", "bash"]],  # (zsh: the generator itself fails on this parser, a C03 matter)
         "cfg": [["--cfg", '{"w": [7]}'], ["--cfg=w: [8]"], ["--cfg", "a_ok.yaml"]],
         "cfgbad": [["--cfg", '{"w": "bad"}'], ["--cfg", "a_bad.yaml"], ["--cfg=no_such_file.yaml"],
                    ["--cfg", '{"cls": {"init_args": {"k": "not a number"}}}']],
@@ -856,7 +856,7 @@ def main(argv):
         tasks.append({"tid": len(tasks) + 1, "calls": calls})
         meta.append({"kind": "scenario", "abs": abss})
     n_scen = len(tasks) - n_tour
-    n_random = 100 if tier == "quick" else 1500
+    n_random = 100 if tier == "quick" else 1000
     for _ in range(n_random):
         calls, abss = [], []
         penv = rnd.choice([{}, {}, {"APP_W": "[3]"}, {"APP_W": "[3]", "OTH_V": "4"}])
